@@ -39,6 +39,17 @@ def scanName (first : Char → Bool) : List Char → Option (List Char × List C
   | [] => none
   | c :: cs => if first c then let r := scanTail cs; some (c :: r.1, r.2) else none
 
+/-- `type_reference`: the scanned name is refused when it is one of `ASN1_KEYWORDS` (the table is passed in:
+    it is regenerated from /repo, `Extracted.Names.asn1Keywords`) -/
+def typeReference (keywords : List (List Char)) (inp : List Char) : Option (List Char × List Char) :=
+  match scanName isUpper inp with
+  | some (n, r) => if keywords.contains n then none else some (n, r)
+  | none => none
+
+/-- `identifier` (after trivia) and `value_reference` -/
+def identifier (inp : List Char) : Option (List Char × List Char) := scanName isAlpha inp
+def valueReference (inp : List Char) : Option (List Char × List Char) := scanName isLower inp
+
 /-! ### X.680 §12.2 / §12.3: a name consists of letters, digits and hyphens, begins with a letter (of
     the case its kind asks for), does not end with a hyphen and holds no two hyphens in a row -/
 
